@@ -44,6 +44,9 @@ type SpecFn struct {
 }
 type Spec struct {
 	Functions []SpecFn `json:"functions"`
+	// Errors fixes the numbering of error values (name as emitted, e.g. "Err_constants_ErrForbiddenParam"): position + 1.
+	// Errors that are not listed get the following numbers in alphabetical order. Harnesses rely on listed numbers.
+	Errors []string `json:"errors,omitempty"`
 }
 
 type fail struct{ msg string }
@@ -71,6 +74,18 @@ type ctx struct {
 	pending []pend
 	nbind   int
 	opaqueK []string // kinds of the opaque callee's arguments (result type of the translated function)
+	loopVal map[string]string           // loop variables of loops being unrolled -> current constant value
+	iters   map[*ast.EmptyStmt]*iterInfo // continuation markers of unrolled loops
+}
+
+// one unrolled `for i := c0; i <cmp> c1; i++/i--` loop: after the body of iteration idx comes the marker, which starts
+// iteration idx+1 (or, after the last one, the statements that follow the loop)
+type iterInfo struct {
+	name string
+	vals []int64
+	idx  int
+	body []ast.Stmt
+	rest []ast.Stmt
 }
 
 func main() {
@@ -155,8 +170,19 @@ func main() {
 		en = append(en, e)
 	}
 	sort.Strings(en)
-	for i, e := range en {
-		fmt.Fprintf(&sb, "Definition %s : Z := %d.\n", e, i+1)
+	num := map[string]int{}
+	for i, e := range spec.Errors {
+		num[e] = i + 1
+	}
+	next := len(spec.Errors) + 1
+	for _, e := range en {
+		if _, ok := num[e]; !ok {
+			num[e] = next
+			next++
+		}
+	}
+	for _, e := range en {
+		fmt.Fprintf(&sb, "Definition %s : Z := %d.\n", e, num[e])
 	}
 	sb.WriteString("\n")
 	for _, b := range bodies {
@@ -221,6 +247,11 @@ func kindOf(t types.Type) string {
 	if isErr(t) {
 		return "err"
 	}
+	if a, ok := t.Underlying().(*types.Array); ok && a.Len() == 8 {
+		if e, ok := a.Elem().Underlying().(*types.Basic); ok && e.Kind() == types.Uint8 {
+			return "le64" // [8]byte holding a little-endian uint64 (binary.LittleEndian.PutUint64): modelled as that number
+		}
+	}
 	b, ok := t.Underlying().(*types.Basic)
 	if !ok {
 		return ""
@@ -257,6 +288,8 @@ func coqTy(k string) string {
 }
 func wrap(k, e string) string {
 	switch k {
+	case "le64":
+		return "(wrapU 64 " + e + ")"
 	case "u8":
 		return "(wrapU 8 " + e + ")"
 	case "u16":
@@ -304,6 +337,11 @@ type gexp struct {
 }
 
 func (c *ctx) constVal(e ast.Expr) (string, bool) {
+	if id, ok := e.(*ast.Ident); ok && c.loopVal != nil {
+		if v, ok := c.loopVal[id.Name]; ok {
+			return v, true
+		}
+	}
 	tv, ok := c.info.Types[e]
 	if !ok || tv.Value == nil {
 		return "", false
@@ -446,6 +484,11 @@ func (c *ctx) expr(e ast.Expr) gexp {
 		return c.binary(x, k)
 	case *ast.CallExpr:
 		return c.call(x, k)
+	case *ast.CompositeLit:
+		if k == "le64" && len(x.Elts) == 0 {
+			return gexp{e: "0"}
+		}
+		bad(x.Pos(), "unsupported composite literal")
 	case *ast.IndexExpr:
 		// byte slice / array parameter with a constant index: leaf input b_i, guarded by i < len_b
 		if id, ok := x.X.(*ast.Ident); ok && c.params[id.Name] && c.locals[id.Name] == nil {
@@ -608,6 +651,13 @@ func (c *ctx) bigMethod(recv ast.Expr, m string, args []ast.Expr, pos token.Pos)
 	case "Set", "SetUint64", "SetInt64":
 		if len(args) == 1 {
 			return c.expr(args[0]), true
+		}
+	case "Exp":
+		if len(args) == 3 {
+			if id, ok := args[2].(*ast.Ident); ok && id.Name == "nil" {
+				a, b := c.expr(args[0]), c.expr(args[1])
+				return gexp{"(Z.pow " + a.e + " " + b.e + ")", merge(a.g, b.g)}, true
+			}
 		}
 	case "Neg":
 		a := c.expr(args[0])
@@ -902,14 +952,127 @@ func (c *ctx) stmts(list []ast.Stmt) string {
 				}
 			}
 		}
+		// binary.LittleEndian.PutUint64(arr[:], e) on a local [8]byte: arr := e
+		if call, ok := x.X.(*ast.CallExpr); ok && len(call.Args) == 2 {
+			if sel, ok := call.Fun.(*ast.SelectorExpr); ok && sel.Sel.Name == "PutUint64" {
+				if in, ok := sel.X.(*ast.SelectorExpr); ok && in.Sel.Name == "LittleEndian" {
+					if sl, ok := call.Args[0].(*ast.SliceExpr); ok && sl.Low == nil && sl.High == nil {
+						if id, ok := sl.X.(*ast.Ident); ok && c.locals[id.Name] != nil && kindOf(c.locals[id.Name]) == "le64" {
+							v := c.expr(call.Args[1])
+							return guardWrap(v.g, "(let "+cn(id.Name)+" := (wrapU 64 "+v.e+") in "+c.stmts(rest)+")")
+						}
+					}
+				}
+			}
+		}
 		bad(x.Pos(), "unsupported expression statement %s", exprString(x.X))
 	case *ast.SwitchStmt:
 		return c.switchStmt(x, rest)
 	case *ast.EmptyStmt:
+		if it, ok := c.iters[x]; ok {
+			return c.iterate(it)
+		}
 		return c.stmts(rest)
+	case *ast.ForStmt:
+		return c.forStmt(x, rest)
 	}
 	bad(s.Pos(), "unsupported statement %T", s)
 	return ""
+}
+
+// forStmt unrolls `for i := c0; i <cmp> c1; i++ | i--` with constant bounds (at most 256 iterations). A trailing
+// `if cond { continue }` of the body is a no-op and dropped; any other continue/break is outside the subset.
+func (c *ctx) forStmt(x *ast.ForStmt, rest []ast.Stmt) string {
+	as, ok := x.Init.(*ast.AssignStmt)
+	if !ok || as.Tok != token.DEFINE || len(as.Lhs) != 1 || len(as.Rhs) != 1 {
+		bad(x.Pos(), "unsupported for loop (init)")
+	}
+	id, ok := as.Lhs[0].(*ast.Ident)
+	if !ok {
+		bad(x.Pos(), "unsupported for loop (init)")
+	}
+	tv0 := c.info.Types[as.Rhs[0]]
+	if tv0.Value == nil || tv0.Value.Kind() != constant.Int {
+		bad(x.Pos(), "for loop: start is not a constant")
+	}
+	v0, _ := constant.Int64Val(tv0.Value)
+	cond, ok := x.Cond.(*ast.BinaryExpr)
+	if !ok {
+		bad(x.Pos(), "unsupported for loop (condition)")
+	}
+	ci, ok := cond.X.(*ast.Ident)
+	tv1 := c.info.Types[cond.Y]
+	if !ok || ci.Name != id.Name || tv1.Value == nil || tv1.Value.Kind() != constant.Int {
+		bad(x.Pos(), "for loop: bound is not a constant")
+	}
+	v1, _ := constant.Int64Val(tv1.Value)
+	post, ok := x.Post.(*ast.IncDecStmt)
+	if !ok {
+		bad(x.Pos(), "unsupported for loop (post)")
+	}
+	pi, ok := post.X.(*ast.Ident)
+	if !ok || pi.Name != id.Name {
+		bad(x.Pos(), "unsupported for loop (post)")
+	}
+	step := int64(1)
+	if post.Tok == token.DEC {
+		step = -1
+	}
+	holds := func(v int64) bool {
+		switch cond.Op {
+		case token.LSS:
+			return v < v1
+		case token.LEQ:
+			return v <= v1
+		case token.GTR:
+			return v > v1
+		case token.GEQ:
+			return v >= v1
+		}
+		bad(x.Pos(), "unsupported for loop (comparison)")
+		return false
+	}
+	var vals []int64
+	for v := v0; holds(v); v += step {
+		vals = append(vals, v)
+		if len(vals) > 256 {
+			bad(x.Pos(), "for loop with more than 256 iterations")
+		}
+	}
+	body := append([]ast.Stmt{}, x.Body.List...)
+	if n := len(body); n > 0 {
+		if is, ok := body[n-1].(*ast.IfStmt); ok && is.Else == nil && is.Init == nil && len(is.Body.List) == 1 {
+			if br, ok := is.Body.List[0].(*ast.BranchStmt); ok && br.Tok == token.CONTINUE && br.Label == nil {
+				body = body[:n-1]
+			}
+		}
+	}
+	return c.iterate(&iterInfo{name: id.Name, vals: vals, idx: 0, body: body, rest: rest})
+}
+
+func (c *ctx) iterate(it *iterInfo) string {
+	if c.loopVal == nil {
+		c.loopVal = map[string]string{}
+		c.iters = map[*ast.EmptyStmt]*iterInfo{}
+	}
+	old, had := c.loopVal[it.name]
+	defer func() {
+		if had {
+			c.loopVal[it.name] = old
+		} else {
+			delete(c.loopVal, it.name)
+		}
+	}()
+	if it.idx >= len(it.vals) {
+		delete(c.loopVal, it.name)
+		return c.stmts(it.rest)
+	}
+	c.loopVal[it.name] = zlit(fmt.Sprint(it.vals[it.idx]))
+	marker := &ast.EmptyStmt{}
+	next := *it
+	next.idx = it.idx + 1
+	c.iters[marker] = &next
+	return c.stmts(append(append([]ast.Stmt{}, it.body...), marker))
 }
 
 func (c *ctx) declThen(gd *ast.GenDecl, rest []ast.Stmt) string {
